@@ -5,6 +5,7 @@ AIR builders are built for `poseidon2_air_configs_for_degree`: the two lists lin
  * the AIR config list is the challenger's config followed by exactly that extra list."""
 import re
 
+from vf.extract import ExtractError
 from vf.unit import Unit
 
 PRELUDE = r'''
@@ -65,4 +66,33 @@ def build():
     u.emit(ex)
     u.emit(ac)
     u.text('}\n}')
+    # ---------------------------------------------------------------- build_verifier_circuit[child_provers] x3: for which extension degree the child's table provers are requested (C17)
+    # the in-circuit verifier requires the proof's non-primitive entries to equal the prover list: a batch child proven over ANOTHER degree (the usual first step: a base-field application
+    # circuit, ext_degree 1, no non-primitive tables) must get the provers of ITS degree, not of the backend's
+    from units.order import _stmt_at
+    u.text('''verus! {
+pub struct ChildProof { pub ext_degree: usize }
+pub enum RecursionInput<'a> { UniStark { w: usize }, BatchStark { proof: &'a ChildProof, w: usize } }
+pub struct ProverList { pub for_degree: Ghost<Option<usize>> }
+impl ProverList { pub fn none() -> (r: ProverList) ensures r.for_degree@ is None { ProverList { for_degree: Ghost(None) } } }
+/// PcsRecursionBackend::<SC, A, D>::non_primitive_provers(backend, ext_degree): the backend's table provers for a child of that degree
+#[verifier::external_body] pub fn non_primitive_provers_(ext_degree: usize) -> (r: ProverList) ensures r.for_degree@ == Some(ext_degree) { unimplemented!() }
+}''')
+    bvs = []
+    for dnum in ('2', '4', '5'):
+        bv = u.extract(B, r'PcsRecursionBackend<SC, A, ' + dnum + r'>', 'build_verifier_circuit', f'PcsRecursionBackend<{dnum}>::build_verifier_circuit[child_provers]')
+        st_ = _stmt_at(bv.body, r'let provers = match prev')
+        if st_ is None:
+            raise ExtractError(f'lost anchor in PcsRecursionBackend<{dnum}>::build_verifier_circuit: `let provers = match prev ..;`')
+        bv.rewrites.append(('R13', 'function body := the statement `let provers = match prev { .. };`, then the local provers', 'the call of build_verifier_circuit_impl'))
+        bv.body = '{\n' + st_ + '\nprovers\n}'
+        bv.set_sig('R11', f"fn build_verifier_circuit_d{dnum}<'a>(prev: &RecursionInput<'a>) -> ProverList", sliced=True)
+        bv.rewrite_re('R11', r'PcsRecursionBackend::<SC, A, \d>::non_primitive_provers\(self, ', 'non_primitive_provers_(', min_count=1)
+        bv.rewrite_re('R11', r'Vec::new\(\)', 'ProverList::none()', min_count=0)
+        bv.ensures('a_batch_child_gets_the_table_provers_of_its_own_extension_degree', 'prev matches RecursionInput::BatchStark { proof, .. } ==> ret.for_degree@ == Some(proof.ext_degree)')
+        bvs.append(bv)
+    u.text('verus! {')
+    for bv in bvs:
+        u.emit(bv)
+    u.text('}')
     return u
